@@ -82,7 +82,7 @@ pub trait MapValidVec<T: IsNone>: Vec1View<T> {
                     })
                     .to_trust(len),
             ),
-            n if n < 0 => Box::new(
+            _ => Box::new(
                 self.titer()
                     .skip(n_abs)
                     .zip(self.titer())
@@ -97,7 +97,6 @@ pub trait MapValidVec<T: IsNone>: Vec1View<T> {
                     .chain(std::iter::repeat_n(f64::NAN, n_abs))
                     .to_trust(len),
             ),
-            _ => Box::new(std::iter::repeat_n(0., len).to_trust(len)),
         }
     }
 
